@@ -52,7 +52,7 @@ def predicate(tr, rep):
     for arr in (opt._population_g_i, opt._population_ph_i):
         if isinstance(arr, np.ndarray) and arr.dtype != object:
             arr[...] = 0 if arr.dtype.kind in "iub" else -12345.5
-    opt._fitness_i[...] = -1e300
+    opt._fitness_i[...] = -(1 << 62) if opt._fitness_i.dtype.kind in "iu" else -1e300
     after = opt._thefittest.get()
     if not all(L.same(before[k], after[k]) for k in before):
         rep.problem("private", "overwriting the population in place changed the reported triple", dict(cfg=cfg),
